@@ -67,6 +67,7 @@ def loadOp (t : Thr) : Thr :=
     match o.splitOn ":" with
     | [k, p] =>
       let k' := if k.endsWith "!" then (k.dropEnd 1).toString else k
+      let k' := if k' == "sw" then "ww" else k'      -- a Writer() obtained before the scenario started: same code path
       if k' == "cl" then { t with kind := "cl", closeArg := p, stage := 0 }
       else if k' == "cx" then { t with kind := "cx", ctx := p, stage := 0 }
       else { t with kind := k', bufs := parseBufs p, ctx := "live", stage := 0 }
@@ -263,7 +264,7 @@ def opPayload (op : String) : String × Bytes :=
   | [k] => (k, [])
   | _ => ("?", [])
 
-def isWriteKind (k : String) : Bool := k == "w1" || k == "wv" || k == "ww" || k == "cw1" || k == "cwv"
+def isWriteKind (k : String) : Bool := k == "w1" || k == "wv" || k == "ww" || k == "sw" || k == "cw1" || k == "cwv"
 
 def collectCalls (evs : List Ev) : List Call :=
   evs.foldl (fun (cs : List Call) e =>
